@@ -257,18 +257,20 @@ def r2(ctx, rep):
         def __init__(self, *a):
             self.given = a
     given = PredsM()
+    frozen = PBase()   # an immutable store (Predicates.Frozen): a PredicatesBase that is not a Predicates
     itg = _Ig(dict(Predicates=PredsM, PredicatesBase=PBase, ParseTable=_Og('ParseTable', fetch=lambda *a: 'TABLE'), check=_Og('check', inst=lambda o, t: o),
                    for_defaults=lambda d, o: dict(d)), where='lang/parsing.py Parser.__init__')
     kept = []
-    for arg in (None, given, ('P1', 'P2'), []):
+    for arg in (None, given, ('P1', 'P2'), [], frozen):
         ps = _Og('parser', notation='N', defaults={})
         r = itg.safe(init, [ps], dict(predicates=arg))
         kept.append(getattr(ps, 'predicates', r))
-    ok = all(isinstance(k, PBase) for k in kept) and kept[1] is given
+    ok = all(isinstance(k, PBase) for k in kept) and kept[1] is given and kept[4] is frozen
     rep.instance(R2, ok=ok, nontrivial='gate')
     if not ok:
         rep.finding(R2, 'C13.R2/Parser.__init__/gate', m.loc(PAR, init), 'Parser.__init__',
-                    f'given None / a store / a tuple / a list the parser keeps {kept!r}: not always a predicate store (PredicatesBase); the given store must be kept as it is')
+                    f'given None / a store / a tuple / a list / an immutable store the parser keeps {[('the given store' if k is given else 'the given immutable store' if k is frozen else 'a new mutable store' if isinstance(k, PredsM) else repr(k)) for k in kept]}: not always a predicate store (PredicatesBase); a given store, mutable or '
+                    f'immutable, must be kept as it is (an immutable store replaced by a mutable copy gets predicates auto-declared into it)')
     known_external = {'get': None}
     n = 0
     for qn, fn in parser_functions(m):
